@@ -728,4 +728,245 @@ Section Proofs.
     destruct K as (A & B & C). repeat split; auto.
     intros m Hm. apply In_resolve; split; auto. apply has_name_In; auto.
   Qed.
+
+  (** * Managing a name: load, else obtain; renew only if due *)
+
+  Lemma In_cache_add_stored s n st :
+    WF s -> stored (store s) n = Some st -> In st (cache_add st (cache s)).
+  Proof.
+    intros W S. apply In_cache_add_new. intros x Hx E.
+    apply (wf_uniq od s W); auto using InSt_cache. eapply InSt_stored; eauto.
+  Qed.
+
+  Theorem manage_sync_spec s n :
+    WF s -> od n = false -> lock_held (jobs s) n = false ->
+    let s' := step s (Manage n false) in
+    jobs s' = jobs s /\
+    if managed_for n (cache s) then
+      (* already managed: nothing to do *)
+      s' = with_err s false
+    else
+      match stored (store s) n with
+      | None =>
+          (* nothing in storage: obtain *)
+          if is_failing s n then
+            lasterr s' = true /\ cache s' = cache s /\ store s' = store s /\ issued s' = issued s
+          else
+            lasterr s' = false /\ issued s' = n :: issued s /\
+            stored (store s') n = Some (new_cert s n) /\ In (new_cert s n) (cache s') /\
+            (forall x, In x (cache s) -> In x (cache s'))
+      | Some st =>
+          if cdue st then
+            (* stored certificate is due: renew *)
+            if is_failing s n then
+              lasterr s' = true /\ In st (cache s') /\ store s' = store s /\ issued s' = issued s
+            else
+              lasterr s' = false /\ issued s' = n :: issued s /\
+              stored (store s') n = Some (new_cert s n) /\ In (new_cert s n) (cache s') /\
+              ~ In st (cache s')
+          else
+            (* a usable certificate is in storage: load it, do not contact the issuer *)
+            lasterr s' = false /\ In st (cache s') /\ (forall x, In x (cache s) -> In x (cache s')) /\
+            store s' = store s /\ issued s' = issued s
+      end.
+  Proof.
+    intros W OD LH. cbn zeta. unfold Model.step, manage. rewrite OD. comp. rewrite LH.
+    change (is_failing (with_err s false) n) with (is_failing s n).
+    destruct (managed_for n (cache s)); [split; reflexivity|].
+    destruct (stored (store s) n) as [st|] eqn:S.
+    - destruct (cdue st) eqn:D.
+      + destruct (is_failing s n) eqn:F; comp.
+        * repeat split; auto. eapply In_cache_add_stored; eauto.
+        * destruct (wf_stored od s n st W S) as [Hh _].
+          split; [reflexivity|]. cbn.
+          assert (E : reload_one ((n, new_cert s n) :: store s) (cache_add st (cache s)) st =
+                      cache_add (new_cert s n) (cache_remove st (cache_add st (cache s)))).
+          { unfold reload_one. rewrite Hh, stored_cons_eq. reflexivity. }
+          change (new_cert (with_cache (with_err s false) (cache_add st (cache s))) n) with (new_cert s n). rewrite E.
+          repeat split; auto using stored_cons_eq.
+          -- apply In_cache_add_new. intros x Hx Ex. exfalso.
+             apply In_cache_remove in Hx as [Hx _]. apply In_cache_add in Hx as [Hx| ->].
+             ++ eapply new_cert_fresh_id; eauto using InSt_cache.
+             ++ eapply new_cert_fresh_id; eauto. eapply InSt_stored; eauto.
+          -- intros K. apply In_cache_add in K as [K|K].
+             ++ apply In_cache_remove in K as [_ K]; auto.
+             ++ eapply (new_cert_fresh_id s n st W); [eapply InSt_stored; eauto | rewrite K; reflexivity].
+      + comp. repeat split; auto using In_cache_add_l. eapply In_cache_add_stored; eauto.
+    - destruct (is_failing s n) eqn:F; comp.
+      + repeat split; auto.
+      + cbn. rewrite stored_cons_eq. cbn. change (Cert (next s) n [] idue true) with (new_cert s n).
+        repeat split; auto using stored_cons_eq, In_cache_add_l.
+        apply In_cache_add_new. intros x Hx Ex. exfalso.
+        eapply new_cert_fresh_id; eauto using InSt_cache.
+  Qed.
+
+
+  (** ** Single steps of the only job for a name (the last one submitted) *)
+  Definition no_job_for (n : name) (js : list job) : bool := forallb (fun j => negb (jname j =? n)) js.
+
+  Lemma lock_held_last js n o old p :
+    no_job_for n js = true -> lock_held (js ++ [Job n o old p]) n = is_locked p.
+  Proof.
+    intros NJ. rewrite lock_held_app, (no_jobs_lock_free n js NJ). unfold lock_held; cbn.
+    rewrite Nat.eqb_refl. destruct p; reflexivity.
+  Qed.
+
+  Lemma job_queued_step s n js o old :
+    jobs s = js ++ [Job n o old Queued] -> no_job_for n js = true ->
+    (o = JObtain -> stored (store s) n = None) ->
+    step s (JobStep n 0) = with_jobs (with_err s false) (js ++ [Job n o old Locked]).
+  Proof.
+    intros E NJ SO. unfold Model.step, job_step. comp. rewrite E.
+    match goal with |- context [split_job n 0 (js ++ [?j])] => rewrite (split_job_snoc n js j NJ eq_refl) end. cbn [jkd jpc_].
+    rewrite (lock_held_last js n o old Queued NJ). cbn [is_locked].
+    destruct o; [rewrite (SO eq_refl)|]; reflexivity.
+  Qed.
+
+  Lemma renew_locked_step s n js old st :
+    jobs s = js ++ [Job n JRenew old Locked] -> no_job_for n js = true ->
+    stored (store s) n = Some st -> is_failing s n = false ->
+    step s (JobStep n 0) =
+    if cdue st then with_jobs (issue idue (with_err s false) n) (js ++ [Job n JRenew old Reload])
+    else with_jobs (with_err s false) (js ++ [Job n JRenew old Reload]).
+  Proof.
+    intros E NJ S F. unfold Model.step, job_step. comp. rewrite E.
+    match goal with |- context [split_job n 0 (js ++ [?j])] => rewrite (split_job_snoc n js j NJ eq_refl) end. cbn [jkd jpc_]. rewrite S.
+    change (is_failing (with_err s false) n) with (is_failing s n). rewrite F.
+    destruct (cdue st); reflexivity.
+  Qed.
+
+  Lemma renew_reload_step s n js old :
+    jobs s = js ++ [Job n JRenew (Some old) Reload] -> no_job_for n js = true ->
+    step s (JobStep n 0) =
+    with_jobs (with_cache (with_err s false) (reload_one (store s) (cache s) old)) js.
+  Proof.
+    intros E NJ. unfold Model.step, job_step. comp. rewrite E.
+    match goal with |- context [split_job n 0 (js ++ [?j])] => rewrite (split_job_snoc n js j NJ eq_refl) end. cbn [jkd jpc_ jold]. rewrite app_nil_r. reflexivity.
+  Qed.
+
+  Lemma obtain_locked_step s n js :
+    jobs s = js ++ [Job n JObtain None Locked] -> no_job_for n js = true ->
+    stored (store s) n = None -> is_failing s n = false ->
+    step s (JobStep n 0) = with_jobs (issue idue (with_err s false) n) (js ++ [Job n JObtain None Reload]).
+  Proof.
+    intros E NJ S F. unfold Model.step, job_step. comp. rewrite E.
+    match goal with |- context [split_job n 0 (js ++ [?j])] => rewrite (split_job_snoc n js j NJ eq_refl) end. cbn [jkd jpc_]. rewrite S.
+    change (is_failing (with_err s false) n) with (is_failing s n). rewrite F. reflexivity.
+  Qed.
+
+  Lemma obtain_reload_step s n js st :
+    jobs s = js ++ [Job n JObtain None Reload] -> no_job_for n js = true ->
+    stored (store s) n = Some st ->
+    step s (JobStep n 0) = with_jobs (with_cache (with_err s false) (cache_add st (cache s))) js.
+  Proof.
+    intros E NJ S. unfold Model.step, job_step. comp. rewrite E.
+    match goal with |- context [split_job n 0 (js ++ [?j])] => rewrite (split_job_snoc n js j NJ eq_refl) end. cbn [jkd jpc_]. rewrite S, app_nil_r. reflexivity.
+  Qed.
+
+  Lemma no_job_step s n k : no_job_for n (jobs s) = true -> step s (JobStep n k) = with_err s false.
+  Proof.
+    intros NJ. unfold Model.step, job_step. comp. rewrite (split_job_none n k _ NJ). reflexivity.
+  Qed.
+
+  (** what can be seen of a state besides the bookkeeping of pending passes and the error flag *)
+  Definition visible (s : state) := (store s, cache s, jobs s, issued s, failed s, next s).
+
+  (** asynchronous management reaches, once its background job has run (three steps at most,
+      with a working issuer), exactly what synchronous management does at once *)
+  Theorem manage_async_completes_like_sync s n :
+    is_failing s n = false -> no_job_for n (jobs s) = true ->
+    visible (run s [Manage n true; JobStep n 0; JobStep n 0; JobStep n 0]) =
+    visible (step s (Manage n false)).
+  Proof.
+    intros F NJ. pose proof (no_jobs_lock_free n _ NJ) as LH.
+    pose proof (no_jobs_no_renew n _ NJ) as NR.
+    assert (X : forall t, jobs t = jobs s -> step t (JobStep n 0) = with_err t false)
+      by (intros t Et; apply no_job_step; rewrite Et; exact NJ).
+    unfold Model.run. cbn [fold_left].
+    unfold Model.step at 4 5. cbn zeta. unfold manage. comp.
+    change (is_failing (with_err s false) n) with (is_failing s n). rewrite F, LH.
+    destruct (od n) eqn:OD.
+    { rewrite (X (with_err s false) eq_refl), (X (with_err (with_err s false) false) eq_refl), (X (with_err (with_err (with_err s false) false) false) eq_refl). reflexivity. }
+    destruct (managed_for n (cache s)).
+    { rewrite (X (with_err s false) eq_refl), (X (with_err (with_err s false) false) eq_refl), (X (with_err (with_err (with_err s false) false) false) eq_refl). reflexivity. }
+    destruct (stored (store s) n) as [c|] eqn:S.
+    - destruct (cdue c) eqn:D.
+      + unfold submit_renew. comp. rewrite NR.
+        match goal with |- context [step ?t (JobStep n 0)] =>
+          match t with context [step] => fail 1 | _ => set (s1 := t) end end.
+        rewrite (job_queued_step s1 n (jobs s) JRenew (Some c) eq_refl NJ ltac:(discriminate)).
+        set (s2 := with_jobs _ _).
+        rewrite (renew_locked_step s2 n (jobs s) (Some c) c eq_refl NJ S F). rewrite D.
+        set (s3 := with_jobs _ _).
+        rewrite (renew_reload_step s3 n (jobs s) c eq_refl NJ).
+        reflexivity.
+      + set (t := with_cache _ _). rewrite (X t eq_refl), (X (with_err t false) eq_refl), (X (with_err (with_err t false) false) eq_refl). reflexivity.
+    - set (s1 := with_jobs _ _).
+      rewrite (job_queued_step s1 n (jobs s) JObtain None eq_refl NJ (fun _ => S)).
+      set (s2 := with_jobs _ _).
+      rewrite (obtain_locked_step s2 n (jobs s) eq_refl NJ S F).
+      set (s3 := with_jobs _ _).
+      rewrite (obtain_reload_step s3 n (jobs s) (new_cert s n) eq_refl NJ (stored_cons_eq _ _ _)).
+      cbn. rewrite stored_cons_eq. reflexivity.
+  Qed.
+
+  (** * Renewal, end to end: a pass finds one certificate due whose stored copy is due as well;
+      the pass queues a job; the job takes the lock, renews, and reloads. Afterwards the issuer
+      was asked once, storage and cache hold the new certificate, the old one is gone, and no
+      job is left. *)
+  Theorem renewal_end_to_end s p c st :
+    WF s -> take_pass p (passes s) = None ->
+    In c (cache s) -> eligible c = true ->
+    scan_renew od (store s) (cache s) = [c] ->
+    stored (store s) (chead c) = Some st ->
+    is_failing s (chead c) = false -> no_job_for (chead c) (jobs s) = true ->
+    let n := chead c in
+    let s' := run s [PassScan p; PassAct p; JobStep n 0; JobStep n 0; JobStep n 0] in
+    issued s' = n :: issued s /\ failed s' = failed s /\
+    stored (store s') n = Some (new_cert s n) /\
+    In (new_cert s n) (cache s') /\ ~ In c (cache s') /\
+    (forall m, In m (cnames (new_cert s n)) -> In (new_cert s n) (resolve m (cache s'))) /\
+    jobs s' = jobs s.
+  Proof.
+    intros W T Hc Ec RQ S F NJ n s'.
+    assert (Dst : cdue st = true).
+    { assert (K : In c (scan_renew od (store s) (cache s))) by (rewrite RQ; cbn; auto).
+      apply In_scan_renew in K as (_ & _ & K). unfold stored_fresh in K. rewrite S in K.
+      apply negb_false_iff in K; exact K. }
+    subst s'. unfold Model.run. cbn [fold_left].
+    (* scan + act *)
+    set (q := Pass p (scan_reload od (store s) (cache s)) (scan_renew od (store s) (cache s))).
+    set (ca := fold_left (reload_one (store s)) (preload q) (cache s)).
+    assert (E2 : step (step s (PassScan p)) (PassAct p) =
+                 State (store s) ca (jobs s ++ [Job n JRenew (Some c) Queued]) (passes s)
+                       (failing s) (issued s) (failed s) (next s) false).
+    { cbn. unfold pass_act, pass_scan. comp.
+      change (passes s ++ [_]) with (passes s ++ [q]).
+      rewrite (take_pass_snoc p (passes s) q T eq_refl). comp.
+      fold ca. cbn [prenew q]. rewrite RQ. cbn [fold_left]. unfold submit_renew.
+      rewrite (no_jobs_no_renew _ _ NJ). reflexivity. }
+    rewrite E2. set (s2 := State _ _ _ _ _ _ _ _ _).
+    assert (Hca : In c ca).
+    { apply fold_reload_keeps; auto. intros o Ho E. cbn in Ho. apply In_scan_reload in Ho as (Io & _ & Fo).
+      assert (o = c) by (symmetry; apply (wf_uniq od s W); auto using InSt_cache). subst o.
+      unfold stored_fresh in Fo. rewrite S, Dst in Fo. discriminate. }
+    (* the job: lock, attempt, reload *)
+    rewrite (job_queued_step s2 n (jobs s) JRenew (Some c) eq_refl NJ ltac:(discriminate)).
+    set (s3 := with_jobs _ _).
+    rewrite (renew_locked_step s3 n (jobs s) (Some c) st eq_refl NJ S F). rewrite Dst.
+    set (s4 := with_jobs _ _).
+    rewrite (renew_reload_step s4 n (jobs s) c eq_refl NJ).
+    cbn. unfold reload_one. fold n. rewrite stored_cons_eq.
+    change (Cert (next s) n [] idue true) with (new_cert s n).
+    assert (Inew : In (new_cert s n) (cache_replace c (new_cert s n) ca)).
+    { unfold cache_replace. apply In_cache_add_new. intros x Hx Ex. exfalso.
+      apply In_cache_remove in Hx as [Hx _]. apply In_fold_reload in Hx.
+      eapply (new_cert_fresh_id s n x W); auto.
+      destruct Hx; [apply InSt_cache | apply InSt_store]; auto. }
+    repeat split; auto using stored_cons_eq.
+    - unfold cache_replace. intros K. apply In_cache_add in K as [K|K].
+      + apply In_cache_remove in K as [_ K]; auto.
+      + eapply (new_cert_fresh_id s n c W); auto using InSt_cache. rewrite K; reflexivity.
+    - intros m Hm. apply In_resolve; split; auto. apply has_name_In; auto.
+  Qed.
 End Proofs.
